@@ -414,7 +414,10 @@ def _has_quantifier(e, _seen=None):
 
 class LoopSpec:
     def __init__(self, invariant=None, unroll=None, raw=None, summarise=False, assume_exit=False, readonly=False,
-                 keep_fields=False, ghost_update=None, forget=(), trace=None):
+                 keep_fields=False, ghost_update=None, forget=(), trace=None, keep_records=()):
+        self.keep_records = tuple(keep_records)   # records whose field heaps the loop does not change: kept at the head
+        #                               (although the loop calls things); every back edge carries the obligation that
+        #                               each of their heaps is the head's heap
         self.trace = None if trace is None else list(trace)
         #                               None: a loop that calls anything may extend any trace (all trace variables are
         #                               arbitrary at the head).  A list: only these trace variables (and the engine's
@@ -1214,6 +1217,9 @@ class Exec:
                         z3.Implies(z3.And(*notstack) if notstack else z3.BoolVal(True),
                                    z3.Select(h, a) == z3.Select(h0, a)),
                         witness={'frame_p': a})
+        if fr.all_fields and fr.keep_records:
+            ref = self.st0
+            self.kept_records_ob(rst, ref, self.record_names(fr.keep_records), rline, 'frame', 'frame')
         if not fr.err and not _same(rst.err, self.err0):
             self.ob('frame', rline, 'error-indicator-unchanged', rst, rst.err == self.err0)
         if fr.trace is not None:
@@ -1708,7 +1714,7 @@ class Exec:
                 keepf = True
             h.havoc('loop%d' % ordinal, raw=False, fields=(acc['fields'] or acc['calls']) and not keepf, ghost=acc['calls'],
                     err=self.fresh('loop%d_err' % ordinal, B64) if (acc['err'] or acc['calls']) else None,
-                    keep_trace=spec.trace is not None)
+                    keep_trace=spec.trace is not None, keep_records=self.record_names(spec.keep_records))
             if spec.trace is not None and acc['calls']:
                 for gname in list(spec.trace) + self.direct_keys_all():
                     for gk, srt in self.ghost_keys(h, gname):
@@ -1760,6 +1766,8 @@ class Exec:
                     cur.ghost[gk] = gv
             for label, g, extra in _norm(spec.invariant(c_end, cur)):
                 self.ob('loop-preserved', line, 'loop%d:%s' % (ordinal, label), cur, g, hyps_extra=extra or ())
+            if spec.keep_records:
+                self.kept_records_ob(cur, head, self.record_names(spec.keep_records), line, 'loop%d' % ordinal, 'loop-preserved')
             if spec.trace is not None:
                 probe = 'tmp:(any other trace variable)'
                 for gk in sorted(set(k_ for k_ in cur.ghost if k_.startswith('tmp:')) | {probe}):
@@ -2371,6 +2379,27 @@ class Exec:
             return False
         return any(getattr(k, 'record_calls', False) and (k.function or k.name) == f for k in self.reg.contracts.values())
 
+    def record_names(self, names):
+        out = []
+        for t in names:
+            try:
+                out.append(self.tu.parse_type(t).name)
+            except Exception:
+                out.append(t)              # (not a C type: a heap family of the engine, e.g. 'words.ob_item')
+        return tuple(out)
+
+    def kept_records_ob(self, st, ref, recs, line, what, kind):
+        """obligations: every field heap of the records `recs` is, in state st, the heap it is in state ref (identical
+        terms need no solver); a probe heap per record catches a havoc of heaps never touched by name"""
+        keys = set(k for k in set(st.fh) | set(ref.fh) if k.split(':')[0] in recs)
+        keys |= set('%s:0:8' % r for r in recs)
+        for key in sorted(keys):
+            x, y = st.heap(key), ref.heap(key)
+            if not _same(x, y):
+                a = z3.BitVec('kept_p', 64)
+                self.ob(kind, line, '%s: field heap %s is unchanged' % (what, key), st, z3.Select(x, a) == z3.Select(y, a),
+                        witness={'kept_p': a})
+
     def direct_keys_all(self):
         out = []
         for k in self.reg.contracts.values():
@@ -2453,8 +2482,7 @@ class Exec:
                 privset = {k for k, sym in enumerate(self.stack_syms) if any(sym[0].eq(p[0]) for p in priv)}
                 self._callee_raw[st.raw.get_id()] = (before_call, privset, st.raw, allraw_fresh)
         if fr.all_fields:
-            st.havoc('after_' + name, raw=False, fields=True, ghost=False,
-                     keep_records=tuple(self.tu.parse_type(t).name for t in fr.keep_records))
+            st.havoc('after_' + name, raw=False, fields=True, ghost=False, keep_records=self.record_names(fr.keep_records))
         for f in fr.fields:
             if isinstance(f, tuple):
                 t = self.tu.parse_type(f[0])
